@@ -169,6 +169,13 @@ def val(c):
     return c
 
 
+def _truediv(x, y):
+    h = getattr(STATE.alg, "truediv", None)
+    if h is not None:
+        return h(x, y)
+    return x / y
+
+
 class X:
     """Exact scalar.  Wraps an algebra value; mixes with Python/numpy numbers."""
     __slots__ = ("v",)
@@ -223,8 +230,8 @@ class X:
     def __rsub__(a, b): return a._bin(b, lambda x, y: x - y, True)
     def __mul__(a, b): return a._bin(b, lambda x, y: x * y)
     def __rmul__(a, b): return a._bin(b, lambda x, y: x * y, True)
-    def __truediv__(a, b): return a._bin(b, lambda x, y: x / y)
-    def __rtruediv__(a, b): return a._bin(b, lambda x, y: x / y, True)
+    def __truediv__(a, b): return a._bin(b, _truediv)
+    def __rtruediv__(a, b): return a._bin(b, _truediv, True)
     def __neg__(a): return X(-a.v)
     def __pos__(a): return a
     def __abs__(a): return X(STATE.alg.abs(a.v))
@@ -418,6 +425,14 @@ def _inexact(dtype):
         return False
 
 
+def _sym_shape(shape):
+    if isinstance(shape, X):
+        return not getattr(shape.v, "is_Integer", False)
+    if isinstance(shape, (tuple, list)):
+        return any(isinstance(c, X) and not getattr(c.v, "is_Integer", False) for c in shape)
+    return False
+
+
 def _obj_full(shape, fill):
     a = _np.empty(shape, dtype=object)
     a.fill(fill)
@@ -462,11 +477,15 @@ class _NPX(_types.ModuleType):
 
     # ---- creation ---------------------------------------------------------
     def zeros(self, shape, dtype=None, **k):
+        if _sym_shape(shape):
+            return STATE.alg.symbolic_array(shape)
         if STATE.exact and _inexact(dtype):
             return _obj_full(shape, 0)
         return _np.zeros(shape, dtype=_real_dtype(dtype) or float, **k)
 
     def empty(self, shape, dtype=None, **k):
+        if _sym_shape(shape):
+            return STATE.alg.symbolic_array(shape)
         if STATE.exact and _inexact(dtype):
             return _obj_full(shape, 0)
         return _np.empty(shape, dtype=_real_dtype(dtype) or float, **k)
@@ -546,6 +565,8 @@ class _NPX(_types.ModuleType):
 
     # ---- elementwise math ------------------------------------------------
     def sqrt(self, x, *a, **k):
+        if hasattr(x, "_uf"):
+            return x._uf("sqrt", x)
         if _symbolic(x):
             return _map(x, lambda c: X(STATE.alg.sqrt(val(c))))
         return _np.sqrt(x, *a, **k)
@@ -561,6 +582,8 @@ class _NPX(_types.ModuleType):
         return _np.sin(x, *a, **k)
 
     def abs(self, x, *a, **k):
+        if hasattr(x, "vabs"):
+            return x.vabs()
         if _symbolic(x):
             return _map(x, lambda c: X(STATE.alg.abs(val(c))))
         return _np.abs(x, *a, **k)
@@ -632,6 +655,8 @@ class _NPX(_types.ModuleType):
         return _np.sum(a, axis=axis, **k)
 
     def dot(self, a, b, out=None):
+        if getattr(a, "_pyvc_symbolic", False) and hasattr(STATE.alg, "vdot"):
+            return STATE.alg.vdot(a, b)
         if _symbolic(a, b):
             return _np.dot(_to_obj(a), _to_obj(b))
         return _np.dot(a, b) if out is None else _np.dot(a, b, out=out)
